@@ -253,6 +253,9 @@ func (c *SpecCtx) loadSV(obj, off *Term, T types.Type) SV {
 	}
 	c.side(typingFacts(Val{T: T, L: out.L}, allocBound))
 	if !c.clamp && c.tr != nil && c.tr.eng != nil {
+		if !c.inQuant {
+			c.side(c.tr.ptrSepFacts(Val{T: T, L: out.L}))
+		}
 		c.side(c.tr.globalSepFacts(Val{T: T, L: out.L}))
 	}
 	return out
@@ -925,8 +928,13 @@ func (c *SpecCtx) lvals(e *Expr) []cellRange {
 func (c *SpecCtx) evalLval(e *Expr) []cellRange {
 	if e.Op == "slice" {
 		s := c.sliceOf(e)
-		es := sizeOf(s.T.Underlying().(*types.Slice).Elem())
-		return []cellRange{{Obj: s.L[0], Lo: s.L[1], Hi: Add(s.L[1], Mul(s.L[2], Int(int64(es))))}}
+		et := s.T.Underlying().(*types.Slice).Elem()
+		es := sizeOf(et)
+		r := cellRange{Obj: s.L[0], Lo: s.L[1], Hi: Add(s.L[1], Mul(s.L[2], Int(int64(es))))}
+		if lay := layoutOf(et); es == 1 && lay.N() == 1 && (lay.Leaves[0].K == LInt || lay.Leaves[0].K == LBool) {
+			r.ElemTag = leafTag(lay.Leaves[0])
+		}
+		return []cellRange{r}
 	}
 	if e.Op == "un" && e.Name == "*" {
 		p := c.eval(e.Args[0])
